@@ -45,6 +45,11 @@ def showConf (c : RestConf) : List (String × String) :=
   [("base", Sexp.quoteStr c.baseURL), ("timeout", toString c.timeout), ("logging", toString c.enableLogging),
    ("headers", showHeaders c.defaultHeaders), ("mws", showMws c.mws)]
 
+def showRTOut : RTOut → String
+  | .ok => "resp=same err=nil"
+  | .fail => "resp=nil err=same"
+  | .both => "resp=same err=same"
+
 def confLine (c : RestConf) : String :=
   " ".intercalate ((showConf c).map (fun (k, v) => k ++ "=" ++ v))
 
@@ -61,8 +66,11 @@ def confCase (id : String) (payload : List Sexp) : List String :=
     | some opts =>
       let c := newWith opts
       let s := specConf opts
-      both id (showConf c ++ [("trace", showTrace (trace (buildMiddleware c)))])
-        (showConf s ++ [("trace", showTrace (specTrace s))])
+      let outs := [("rt.ok", RTOut.ok), ("rt.fail", RTOut.fail), ("rt.both", RTOut.both)]
+      both id (showConf c ++ [("trace", showTrace (trace (buildMiddleware c)))]
+          ++ outs.map (fun (k, o) => (k, showRTOut (roundTrip (buildMiddleware c) o))))
+        (showConf s ++ [("trace", showTrace (specTrace s))]
+          ++ outs.map (fun (k, o) => (k, showRTOut (specRoundTrip s o))))
     | none => err id "bad-opts"
   | _ => err id "bad-conf-case"
 
